@@ -407,7 +407,37 @@ fn acceptance(t: &mut Tape, ctx: &mut Ctx) -> CheckResult {
     ctx.class("group:acceptance");
     let sz = ctx.sizes;
     let al = gen::alpha(t, &sz);
-    match t.choice(5) {
+    match t.choice(6) {
+        5 => {
+            // spider(s, t, w): both legs must land in the node list w
+            let w: Vec<u32> = (0..t.range(0, 4)).map(|_| t.choice(al.nl) as u32).collect();
+            let n = w.len();
+            let cod = |t: &mut Tape| match t.weighted(&[3, 1, 1]) {
+                1 => n + 1,
+                2 if n > 0 => n - 1,
+                _ => n,
+            };
+            let (cs, ct) = (cod(t), cod(t));
+            let leg = |t: &mut Tape, c: usize| -> Vec<usize> { if c == 0 { vec![] } else { (0..t.range(0, 3)).map(|_| t.choice(c)).collect() } };
+            let (s, tt) = (leg(t, cs), leg(t, ct));
+            ctx.set_dump(format!("spider: s = {:?} -> {cs}, t = {:?} -> {ct}, w = {:?}", s, tt, w));
+            ctx.sub("spider-new-iff");
+            let ok = cs == n && ct == n;
+            ctx.class_if(!ok, "planted-flaw");
+            let r = sv::SOH::spider(sv::ff(s.clone(), cs), sv::ff(tt.clone(), ct), sv::ty(&w));
+            ensure!(ctx, r.is_some() == ok, "spider-new-iff", "spider accepted = {} but the legs have codomains {cs} and {ct} for {n} nodes", r.is_some());
+            let r2 = <sv::SOH as Spider<sv::K>>::spider(sv::ff(s.clone(), cs), sv::ff(tt.clone(), ct), sv::ty(&w));
+            ensure!(ctx, r2.is_some() == ok, "spider-new-iff", "Spider::spider accepted = {} but the legs have codomains {cs} and {ct} for {n} nodes", r2.is_some());
+            if let Some(f) = r {
+                let want_s: Vec<u32> = s.iter().map(|&i| w[i]).collect();
+                let want_t: Vec<u32> = tt.iter().map(|&i| w[i]).collect();
+                check_value(ctx, &f, (&want_s, &want_t), "accepted spider")?;
+            }
+            if !ok {
+                ctx.nontrivial(&("spider", &w, &s, cs, &tt, ct));
+            }
+            return Ok(());
+        }
         4 => {
             // Operations::new on raw (labels, source types, target types): one type of each kind per label
             let n = t.range(0, 4);
